@@ -91,7 +91,8 @@ def run_word(word, community="public", mode="protocol"):
                     n0 = len(got)
                     if len(d["raw"]) > 0:
                         out.sendto(bytes(d["raw"]), ("127.0.0.1", port))
-                    for _ in range(40):
+                    # real sockets and a real scheduler: wait long for an expected delivery (up to 2 s), briefly otherwise
+                    for _ in range(1000 if d["kind"] == "valid" else 15):
                         await asyncio.sleep(0.002)
                         if len(got) > n0:
                             break
